@@ -17,7 +17,7 @@ REQUIRED = ["C08:fifo-delay", "C08:latency-pricing", "C08:execution-after-latent
 REQUIRED_CATS = ["action-buffer-kind:list", "action-buffer-kind:series", "decision-refused-then-resubmitted", "action-buffer-reused-in-place", "fold-starts-at-latent-only-timestep", "events-added-after-environment-built", "rebuilt-with-other-latency", "repeated-episode", "C08:null-executed", "C08:delayed-executed", "discrete", "box", "delay:0", "delay:1", "delay:2", "delay:3",
                  "latency:5", "latency:30", "latency:0.2", "latency:0.7"]
 REQUIRED_HITS = ["Broker.rebalance"]
-TECHNIQUE = "runtime monitoring: executed allocations and trade prices compared with the submitted action sequence and the input quote stream"
+TECHNIQUE = "runtime monitoring: executed allocations and trade prices compared with a FIFO model of the submitted action sequence (refused and delayed-refused decisions included) and with the input quote stream"
 LEVEL_TEXT = ("Exploration. Unique per-step actions make the executed sequence identify its origin, so FIFO/no-drop/no-duplicate is "
               "decided by sequence equality; latency pricing is decided against the raw input stream.")
 LEVEL_NOTE = ("Trusted: the harness' reading of the input stream. Mutation audit: reverted null-action fix, LIFO pop, maxlen=d, "
